@@ -3,7 +3,8 @@
 // built by common.BuildTree) over one record stream cut into batches in many ways, with optional restarts
 // (new State read back from the state file + fresh tree), and reports the content of the state file.
 //
-// ops:  cfg thr=<n> | known u=<enc> | rec ts= dur= tot= st= m= u= i= c= int= | run cuts=<..|-> restarts=<..|->
+// ops:  cfg thr=<n> | known u=<enc> | rec ts= dur= tot= st= m= u= i= c= int= | run cuts=<..|-> restarts=<..|-> [faildumps=<..|->]
+//       (faildumps: the flush of the batch ending at that cut cannot write the state file — transient fault)
 // answer of `run`: full=<0|1> fail=<k> avg=<ok|off:..> ep <key> <count> <minS> <maxS> <st> ... ce <tag> <key> ... it <type> <ver> <tsS>
 //
 // Float means (TEST, not proof): every `run` is executed a second time with the status code of record j
@@ -77,13 +78,15 @@ func parseList(s string) []int {
 }
 
 type seg struct {
+	failDump bool // the state file cannot be written during this Run
 	restart bool
 	recs    []common.AccessLog
 }
 
-func segsOf(recs []common.AccessLog, cuts, restarts []int) []seg {
+func segsOf(recs []common.AccessLog, cuts, restarts, faildumps []int) []seg {
 	var out []seg
 	rs := append([]int(nil), restarts...)
+	fd := append([]int(nil), faildumps...)
 	prev := 0
 	clamp := func(x int) int {
 		if x > len(recs) {
@@ -94,7 +97,15 @@ func segsOf(recs []common.AccessLog, cuts, restarts []int) []seg {
 	for _, c := range cuts {
 		lo := clamp(prev)
 		hi := max(lo, clamp(c))
-		out = append(out, seg{recs: recs[lo:hi]})
+		fail := false
+		for i, f := range fd {
+			if f == c {
+				fail = true
+				fd = append(fd[:i], fd[i+1:]...)
+				break
+			}
+		}
+		out = append(out, seg{recs: recs[lo:hi], failDump: fail})
 		for i, r := range rs {
 			if r == c {
 				out = append(out, seg{restart: true})
@@ -147,6 +158,20 @@ func (r *runner) once(segs []seg) (out sharedDiscovery.Output, fails int, buildE
 			}
 			continue
 		}
+		if s.failDump {
+			// transient write fault for exactly this flush: a directory sits at the state path, so os.WriteFile
+			// fails; afterwards the old file is back (its content is what a failed write leaves behind)
+			bak := path + ".bak"
+			must(os.Rename(path, bak))
+			must(os.Mkdir(path, 0o755))
+			err := discovery.Run(st, s.recs, tree)
+			must(os.Remove(path))
+			must(os.Rename(bak, path))
+			if len(s.recs) > 0 && err == nil {
+				fails++ // the fault was not reported
+			}
+			continue
+		}
 		if err := discovery.Run(st, s.recs, tree); err != nil {
 			fails++
 		}
@@ -160,6 +185,12 @@ func (r *runner) once(segs []seg) (out sharedDiscovery.Output, fails int, buildE
 	}
 	os.Remove(path)
 	return out, fails, false
+}
+
+func must(err error) {
+	if err != nil {
+		panic(err)
+	}
 }
 
 func secs(s string) int64 {
@@ -397,9 +428,16 @@ func exec(c proto.Case, o *proto.Out) []string {
 		case "run":
 			cs, _ := proto.KV(w, "cuts")
 			rs, _ := proto.KV(w, "restarts")
-			cuts, restarts := parseList(cs), parseList(rs)
+			fds, ok := proto.KV(w, "faildumps")
+			if !ok {
+				fds = "-"
+			}
+			cuts, restarts, faildumps := parseList(cs), parseList(rs), parseList(fds)
+			if len(faildumps) > 0 {
+				o.Count("run-with-failed-dump")
+			}
 			full := len(restarts) == 0
-			real, fails, berr := r.once(segsOf(recs, cuts, restarts))
+			real, fails, berr := r.once(segsOf(recs, cuts, restarts, faildumps))
 			if berr {
 				outs[i] = "err:build"
 				o.Count("build-error")
@@ -410,7 +448,7 @@ func exec(c proto.Case, o *proto.Out) []string {
 				sh[j] = recs[j]
 				sh[j].StatusCode = shadowBase + j
 			}
-			shadow, _, _ := r.once(segsOf(sh, cuts, restarts))
+			shadow, _, _ := r.once(segsOf(sh, cuts, restarts, faildumps))
 			verdict := avgVerdict(full, recs, real, shadow)
 			if verdict == "nondet" {
 				// two executions of the same run (differing only in status codes) attributed records differently:
